@@ -94,6 +94,14 @@ def run(M, rep, tier, only=None):
     R5 = rep.rule("C03.R5", "id-or-name dispatch falls back to the name when the id search misses", floor=3,
                   technique="decision table of the dispatchers")
 
+    R6 = rep.rule("C03.R6", "containers answer every lookup from the file (no remembered order / names / items)", floor=1,
+                  technique="stateless-handle classification (see C02.R7)")
+    from . import stateless
+    from .common import CONTAINER_CLASSES
+    n6 = stateless.run(M, rep, R6, only_classes=set(CONTAINER_CLASSES) | {"H5Group"})
+    if not n6:
+        rep.ok(R6, "containers", "no instance attribute is written outside the constructors")
+
     # ---------------------------------------------------------------- R1
     file_aliases(ctx)
     rep.stats["file_aliases"] = {show(k): show(v) for k, v in FILE_ALIASES.items()}
